@@ -260,6 +260,10 @@ func runC15(w *eng.W) {
 		w.Note("leg:"+leg, 1)
 		w.Sample(leg, string(src))
 		c15Src.Do(w, SrcCase{Src: append(Bytes(nil), src...)})
+		if leg == "break-joiners" || leg == "infix-triples" || leg == "lookahead-forms" {
+			// the same text after a byte order mark (white space for the scanner): offsets are offsets into THIS text
+			c15Src.Do(w, SrcCase{Src: append(Bytes("\ufeff"), src...)})
+		}
 	}
 	// helpers
 	hn := 5
